@@ -425,6 +425,14 @@ pub fn adaptive_lf_smoothing(
     let tracker = in_x.tracker();
     let width = in_x.width();
     let height = in_x.height();
+    if [&*in_y, &*in_b]
+        .into_iter()
+        .any(|grid| grid.width() != width || grid.height() != height)
+    {
+        // LF planes of a chroma-subsampled frame have different sizes; adaptive LF smoothing is
+        // not applied to such frames.
+        return Ok(());
+    }
 
     let in_x = in_x.buf_mut();
     let in_y = in_y.buf_mut();
